@@ -41,11 +41,13 @@ impl SegmentIter {
             IterDirection::Forward => offsets_index,
             IterDirection::Reverse => {
                 offsets.reverse();
-                if offsets_index == 0 && !offsets.is_empty() {
-                    0 // Start from first index after reversal (which is the last event)
-                } else if offsets_index < offsets.len() {
+                if offsets_index < offsets.len() {
+                    // Position `offsets_index` (counted from the oldest event) sits at
+                    // `len - 1 - offsets_index` after the reversal; index 0 is the oldest event,
+                    // not "start from the newest"
                     offsets.len() - 1 - offsets_index
                 } else {
+                    // At or beyond the end: start from the newest event
                     0
                 }
             }
